@@ -181,6 +181,10 @@ fn atoms(cs: &[Fv]) -> Vec<RangeQuery<Fv>> {
         out.push(RangeQuery::Include(vec![cs[n - 1].clone(), cs[1].clone(), cs[n - 1].clone()]));
         out.push(RangeQuery::Include(cs.to_vec()));
         out.push(RangeQuery::Include(vec![cs[n / 2].clone(), cs[0].clone()]));
+        // unsorted lists of EXISTING keys (the last constant lies beyond every key):
+        // descending order, and a non-adjacent repeat
+        out.push(RangeQuery::Include(cs.iter().rev().cloned().collect()));
+        out.push(RangeQuery::Include(vec![cs[n - 2].clone(), cs[1].clone(), cs[n - 2].clone(), cs[2 % n].clone()]));
     }
     out
 }
